@@ -510,11 +510,16 @@ def cli_key(err):
     return classify_crash(cli_crash_info(err))
 
 
-def run_cli(ctx, d, data, name="m.emb", extra_args=()):
-    """Write `data` (bytes) as d/name and run the working tree's embossc on it."""
+def run_cli(ctx, d, data, name="m.emb", extra_args=(), extra_files=None):
+    """Write `data` (bytes) as d/name and run the working tree's embossc on it.  Generated companion files that the
+    text imports (the twin-span family) are written beside it: the in-process run has them in its file map."""
     os.makedirs(d, exist_ok=True)
     with open(os.path.join(d, name), "wb") as f:
         f.write(data)
+    for xname, xtext in (extra_files or {}).items():
+        if ('"%s"' % xname).encode("utf-8") in data and os.sep not in xname:
+            with open(os.path.join(d, xname), "w", encoding="utf-8") as f:
+                f.write(xtext)
     out = os.path.join(d, "out")
     cmd = [fw.PY, os.path.join(fw.REPO, "embossc"), "--import-dir", d, "--import-dir", fw.REPO, "--output-path", out,
            "--color-output", "never"] + list(extra_args) + [name]
@@ -770,7 +775,8 @@ def run(ctx):
         jobs.append((os.path.join(cdir, "r%d" % j), data, "cli-raw", None, None))
     cli_found = {}
     with concurrent.futures.ThreadPoolExecutor(max_workers=min(fw.NPROC, 16)) as ex:
-        futs = [(ex.submit(run_cli, ctx, d, data), d, data, label, text, rec) for d, data, label, text, rec in jobs]
+        twins = gen_fuzz.twin_cases()[1]
+        futs = [(ex.submit(run_cli, ctx, d, data, "m.emb", (), twins), d, data, label, text, rec) for d, data, label, text, rec in jobs]
         for fut, d, data, label, text, rec in futs:
             res = fut.result()
             ctx.count("cli:" + label.split(":")[0])
